@@ -78,3 +78,24 @@ Example C06_keltner_polarity_refuted :
     | _, _ => False
     end /\ snd r2 = [a_sell_all].
 Proof. eexists. split; [reflexivity|]. vm_compute. repeat split. Qed.
+
+(** Known finding KF-C06-tsx-signals: TrendStrengthIndex documents "when the main value crosses the upper zone downwards,
+    gives full NEGATIVE #1 signal"; on the faithful model (binary64, kernel computation) TrendStrengthIndex(period 3,
+    zone 0.5, reverse_offset 1) built from a flat candle at 2 and fed closes 6 then 4 has value > 0.5 after the first and
+    < 0.5 after the second candle - a downward crossing of the upper zone - and returns a full BUY.  (Signal #2 has the same
+    inverted polarity and, in addition, tests the zone against a PRICE of the window instead of the main value.) *)
+From Yata Require Import Base.NumF64 Indicators.Set5.
+From Coq Require Import Floats.
+Theorem C06_trend_strength_polarity_refuted :
+  let c0 := mkCandle (N := NumF64) 2%float 2%float 2%float 2%float 1%float in
+  let k1 := mkCandle (N := NumF64) 6%float 6%float 6%float 6%float 1%float in
+  let k2 := mkCandle (N := NumF64) 4%float 4%float 4%float 4%float 1%float in
+  exists s0, tsx_init (pw := PW8) (N := NumF64) 3 (0x1p-1)%float 1 SClose c0 = Ok s0 /\
+    let s1 := fst (tsx_next (pw := PW8) s0 k1) in
+    let r1 := snd (tsx_next (pw := PW8) s0 k1) in
+    let r2 := snd (tsx_next (pw := PW8) s1 k2) in
+    match fst r1, fst r2, snd r2 with
+    | [v1], [v2], sg1 :: _ => PrimFloat.ltb (0x1p-1)%float v1 = true /\ PrimFloat.ltb v2 (0x1p-1)%float = true /\ sg1 = a_buy_all
+    | _, _, _ => False
+    end.
+Proof. eexists. split; [reflexivity|]. vm_compute. repeat split. Qed.
